@@ -172,6 +172,8 @@ class FuncUnit(Unit):
         rng = random.Random(seed)
         # engine validation + runtime contract check on the real function
         n = self.nvalid if self.nvalid is not None else (30 if tier == 'quick' else 300)
+        if not getattr(k, 'native_validation', True):
+            n = 0
         out['validation'], out['native'], samples = self.validate(k, paths, rng, n)
         out['pending'] = [(ob, (lambda ob=ob: self.falsify(k, ob, samples))) for ob in obls]
         return out
